@@ -264,6 +264,9 @@ fn bytes_fns(h: &[u8], pat: &[u8]) -> Result<(), String> {
     }
     let r = kstr::from_utf8(h);
     ensure!(r.is_ok() == std::str::from_utf8(h).is_ok(), "string::from_utf8 validity differs from core");
+    if let (Err(a), Err(b)) = (&r, std::str::from_utf8(h)) {
+        ensure!(a.0 == b, "string::from_utf8 error {:?} differs from core's {:?}", a.0, b);
+    }
     Ok(())
 }
 
